@@ -18,7 +18,7 @@ RULE = ("Kernel Proof objects built directly over theory logic_base. (i) Enumera
         "(assume, implies_intr, implies_elim, sorry, empty rule with/without a stated sequent, subproof), with every "
         "item's identifier taken from {its position, another position, a later position, a deeper id} and every "
         "citation list from the positions present; stated sequents in {none, exact, weaker, stronger, different}. "
-        "(ii) Random larger shapes from Hypothesis (depth <=3, <=12 items) adding symmetric/reflexive/theorem steps and "
+        "(ii) 'identifier games': locally valid symmetric steps with stated sequents whose identifiers are honest / duplicates of honest ones / shifted / nested / negative and whose citations point anywhere (earlier, later, itself, into a block, negative); random larger shapes from Hypothesis (depth <=3, <=12 items) adding symmetric/reflexive/theorem steps and "
         "harness-registered macros whose expansions contain a placeholder at depth 1-2. (iii) Extension pairs (stated "
         "theorem, proof) for Theory.checked_extend. Oracle A: a reference judge that resolves citations by position, "
         "requires the target to have been verified earlier in the same walk and to be visible (not in a closed block), "
@@ -663,6 +663,78 @@ def fitted_proof_strategy():
     return proofs()
 
 
+def idgames_strategy():
+    """Locally valid steps with stated sequents, adversarial identifiers and citations: every line states x = y or
+    y = x and is justified by `symmetric` from some line (earlier, later, itself, negative, inside a block); the
+    identifiers are honest, duplicates of honest ones, shifted, nested or negative.  Well-foundedness is all that
+    stands between such a proof and acceptance."""
+    from hypothesis import strategies as st
+    Ta = ["tv", "a"]
+    x, y = ["v", "x", Ta], ["v", "y", Ta]
+    eqT = fun(Ta, Ta, BOOL)
+
+    def eq(a, b):
+        return ["app", ["app", ["c", "equals", eqT], a], b]
+    claims = [thm_j(eq(x, y)), thm_j(eq(y, x))]
+
+    @st.composite
+    def proofs(draw):
+        # an honest, valid chain: line 0 assumes x = y; every other line flips an EARLIER line of opposite polarity;
+        # then exactly one line is made adversarial (identifier and/or citation), keeping its step locally valid.
+        n = draw(st.integers(3, 5))
+        b = draw(st.integers(1, n - 1)) if draw(st.integers(0, 2)) == 0 else None      # a block at top-level position b
+        pos = []
+        for i in range(n):
+            pos.append((i,))
+            if i == b:
+                pos += [(i, 0), (i, 1)]
+        lines = [p for p in pos if p != (b,)]
+        hyp = [eq(x, y)]
+        pol = {lines[0]: 0}
+        cite = {}
+
+        def vis(p, q):
+            l = len(q)
+            return l <= len(p) and q[:l - 1] == p[:l - 1] and q[l - 1] < p[l - 1]
+        for p in lines[1:]:
+            cands = [q for q in lines if q in pol and vis(p, q)]
+            q = draw(st.sampled_from(cands)) if cands else lines[0]
+            cite[p] = q
+            pol[p] = 1 - pol[q]
+        j = draw(st.sampled_from(lines[1:]))
+        others = [q for q in lines if q != j and pol[q] != pol[j]]
+        mode = draw(st.sampled_from(['dup', 'dup', 'shift', 'nest', 'neg', 'honest']))
+        if mode == 'honest':
+            ident = j
+        elif mode == 'dup':
+            ident = draw(st.sampled_from([q for q in pos if q != j]))
+        elif mode == 'shift':
+            ident = j[:-1] + (j[-1] + draw(st.sampled_from([1, 2, -1])),)
+        elif mode == 'nest':
+            ident = draw(st.sampled_from(pos)) + (draw(st.integers(0, 1)),)
+        else:
+            ident = j[:-1] + (-1,)
+        jq = draw(st.sampled_from(others + [(-1,)])) if (others and draw(st.integers(0, 4)) != 0) else draw(st.sampled_from(lines + [(-1,), (n,)]))
+        drop_hyp = draw(st.booleans())
+
+        def mk(p):
+            if p == lines[0]:
+                return item(list(p), 'assume', eq(x, y), [], None)
+            th = thm_j(claims[pol[p]]['prop'], hyp)
+            if p == j:
+                return item(list(ident), 'symmetric', None, [list(jq)], thm_j(claims[pol[p]]['prop'], [] if drop_hyp else hyp))
+            return item(list(p), 'symmetric', None, [list(cite[p])], th)
+        its = []
+        for i in range(n):
+            if i == b:
+                blk = item([i], 'subproof', None, [], None, [mk((i, 0)), mk((i, 1))])
+                its.append(blk)
+            else:
+                its.append(mk((i,)))
+        return {'kind': 'proof', 'no_gaps': draw(st.integers(0, 3)) != 0, 'items': its}
+    return proofs()
+
+
 def ext_strategy():
     from hypothesis import strategies as st
     atoms = [A, B]
@@ -705,6 +777,8 @@ def shards(tier):
         out.append({'kind': 'fitted', 'n': c, 'i': i})
     for i, c in enumerate(harness.split(ne, 2)):
         out.append({'kind': 'ext', 'n': c, 'i': i})
+    for i, c in enumerate(harness.split(nf, 8)):
+        out.append({'kind': 'idgames', 'n': c, 'i': i})
     return out
 
 
@@ -721,5 +795,5 @@ def run_shard(desc, seed, tier, H):
             run_case(case, H)
         except CaseInvalid:
             H.note('generated-invalid')
-    strat = {'random': proof_strategy, 'fitted': fitted_proof_strategy, 'ext': ext_strategy}[k]()
+    strat = {'random': proof_strategy, 'fitted': fitted_proof_strategy, 'ext': ext_strategy, 'idgames': idgames_strategy}[k]()
     harness.hyp_run(strat, body, desc['n'], seed)
